@@ -256,6 +256,18 @@ fn run_one(rng: &mut Rng, out: &mut Out) {
         return;
     }
     let style = rng.below(6);
+    // one case in eight is preceded, on the same thread, by a handshake that is abandoned half-way
+    // (the peer vanished inside packet 1): nothing of it may reach the handshakes that follow
+    if rng.chance(1, 8) {
+        let _ = guarded(|| {
+            let mut h = Handshake::new(if rng.coin() { PeerType::Client } else { PeerType::Server });
+            let mut junk = vec![3u8];
+            junk.extend(rng.bytes_in(1, 1400));
+            let _ = h.process_bytes(&junk);
+            drop(h);
+        });
+        out.count("cases_preceded_by_an_abandoned_handshake", 1);
+    }
     // style 5: a reader with a fixed buffer size, among them exactly one packet's worth
     let fixed_piece = *rng.pick(&[1536usize, 1536, 1537, 1535, 768, 3072, 1024, 512, 3073]);
     let mut splits_near_boundaries = 0u64;
